@@ -150,8 +150,9 @@ fn check_parent(run: &Run, pnode: &Node, cfg: &AlphaCfg, max_batch: usize) {
     let path = pnode.path_str();
     let all_txs: Vec<(String, Transaction, bool)> = tx_alphabet(&open, cfg);
     let actions: Vec<Option<ProposerAction>> = vec![None, Some(action_dest(5))];
-    for (label, batch) in children(&open, cfg, max_batch) {
-        for act in &actions {
+    let tasks: Vec<(String, Vec<Transaction>, Option<ProposerAction>)> = children(&open, cfg, max_batch).into_iter().flat_map(|(l, b)| actions.iter().map(move |a| (l.clone(), b.clone(), *a)).collect::<Vec<_>>()).collect();
+    tasks.par_iter().for_each(|(label, batch, act)| {
+        {
             // honest child
             let child = guard(|| {
                 let mut u = parent.next_unsealed();
@@ -160,7 +161,7 @@ fn check_parent(run: &Run, pnode: &Node, cfg: &AlphaCfg, max_batch: usize) {
             });
             let child = match child {
                 Ok(Some(c)) => c,
-                _ => continue,
+                _ => return,
             };
             run.state();
             let blk = child.to_block();
@@ -225,7 +226,7 @@ fn check_parent(run: &Run, pnode: &Node, cfg: &AlphaCfg, max_batch: usize) {
                 judge(run, &parent, &b, name, false, &path, &label);
             }
         }
-    }
+    });
 }
 
 pub fn run(run: &Run) {
@@ -257,7 +258,7 @@ pub fn run(run: &Run) {
             }
         };
         bfs(&eng, vec![rootn], if thorough { 6 } else { 3 }, 200_000, &acts, &visit);
-        let parents: Vec<Node> = collected.into_inner().into_iter().take(if thorough { 60 } else { 4 }).collect();
+        let parents: Vec<Node> = collected.into_inner().into_iter().take(if thorough { 60 } else { 6 }).collect();
         total_parents += parents.len();
         let mut ccfg = AlphaCfg::base();
         ccfg.per_denom = 2;
